@@ -30,6 +30,85 @@ fn src_case(src: &str) -> J {
     json!({"kind": "node", "src": src})
 }
 
+/// One edit of a source string; positions are mapped monotonically onto the candidates.
+#[derive(Clone, Debug)]
+struct Edit {
+    kind: u8,
+    pos: u16,
+    ch: char,
+}
+
+fn apply_edit(src: &str, e: &Edit) -> String {
+    let chars: Vec<char> = src.chars().collect();
+    let pick = |n: usize| (e.pos as usize * n) >> 16;
+    let ws: Vec<usize> = chars.iter().enumerate().filter(|(_, c)| c.is_whitespace()).map(|(i, _)| i).collect();
+    let mut out = chars.clone();
+    match e.kind % 8 {
+        // whitespace edits: duplicate / delete / exchange one whitespace character (wherever it is:
+        // between tokens, inside a string literal, inside a comment)
+        0 if !ws.is_empty() => {
+            let i = ws[pick(ws.len())];
+            out.insert(i, chars[i]);
+        },
+        1 if !ws.is_empty() => {
+            out.remove(ws[pick(ws.len())]);
+        },
+        2 if !ws.is_empty() => {
+            let i = ws[pick(ws.len())];
+            out[i] = if chars[i] == ' ' { '\t' } else { ' ' };
+        },
+        3 => out.insert(pick(chars.len() + 1), ' '),
+        4 if !chars.is_empty() => {
+            out.remove(pick(chars.len()));
+        },
+        5 if !chars.is_empty() => {
+            let i = pick(chars.len());
+            out.insert(i, chars[i]);
+        },
+        6 if !chars.is_empty() => {
+            let i = pick(chars.len());
+            let c = chars[i];
+            out[i] = if c.is_uppercase() { c.to_lowercase().next().unwrap_or(c) } else { c.to_uppercase().next().unwrap_or(c) };
+        },
+        _ => out.insert(pick(chars.len() + 1), e.ch),
+    }
+    out.into_iter().collect()
+}
+
+/// Deserialisation is a function of the string alone: a sequence of closely related strings
+/// (one base program and successive small edits of it, then the base again) deserialised one after
+/// the other on one thread gives, for each of them, what precompiling that string gives.
+fn check_history(srcs: &[String], l: &mut Local) -> Outcome {
+    for (i, s) in srcs.iter().enumerate() {
+        if let Err(mut f) = check_node(s, l) {
+            // does the string fail on its own as well? then it is not a history effect
+            f.case = json!({"kind": "history", "srcs": srcs[..=i].to_vec()});
+            f.signature = format!("{} (in a sequence of related strings)", f.signature);
+            return Err(f);
+        }
+    }
+    if srcs.len() >= 3 {
+        l.label("sequence of >= 3 related strings");
+    }
+    Ok(())
+}
+
+fn arb_history() -> BoxedStrategy<Vec<String>> {
+    let edit = (0u8..8, any::<u16>(), prop_oneof![select(vec![' ', '\t', '\n', 'a', '1', '"', '\\', '(', ')', ',', ';', '+', '=', '/', '*', 'é']), any::<char>()])
+        .prop_map(|(kind, pos, ch)| Edit { kind, pos, ch });
+    (programs::arb_program(4), proptest::collection::vec((edit, any::<bool>()), 1..6))
+        .prop_map(|(p, edits)| {
+            let mut out = vec![p.src.clone()];
+            for (e, cumulative) in edits {
+                let from = if cumulative { out.last().unwrap().clone() } else { p.src.clone() };
+                out.push(apply_edit(&from, &e));
+            }
+            out.push(p.src);
+            out
+        })
+        .boxed()
+}
+
 /// (i) deserialising an expression from a string == precompiling that string.
 fn check_node(src: &str, l: &mut Local) -> Outcome {
     let built = match vcore::catch(|| evalexpr::build_operator_tree::<DefaultNumericTypes>(src)) {
@@ -310,7 +389,7 @@ fn run(rep: &Report) {
     rep.set_rule(
         "(i) strings (rendered ASTs, token soups, raw Unicode, planted defects, lexical errors): Node::deserialize from \
          serde's own &str and borrowed-str deserializers, from an exact in-memory data-model format, from RON and from serde_json's string encoding (string and reader) \
-         must give Ok(tree == build_operator_tree(s)) or fail with the same message. (ii) contexts reachable through \
+         must give Ok(tree == build_operator_tree(s)) or fail with the same message; the same for every member of a sequence of related strings (a base program, up to five small edits of it -- whitespace duplicated / deleted / exchanged anywhere including inside string literals and comments, a character inserted / deleted / doubled / case-toggled -- and the base again) deserialised one after the other on one thread. (ii) contexts reachable through \
          the API (random variable maps over all six value types with +-0.0, subnormals, +-inf, NaN, nested tuples, \
          Unicode and empty names, both switch values, with and without user functions): serialise -> deserialise \
          through the exact data-model format (bit-exact by construction) and, when all floats are finite, through \
@@ -327,6 +406,20 @@ fn run(rep: &Report) {
     common::random_search(rep, "strings", 160, n, &move || programs::arb_program(depth), &|p: &programs::Program, l| {
         l.sample(3, || json!(vcore::clip(&p.src, 120)));
         check_node(&p.src, l)
+    });
+    // histories: related strings one after the other on one thread (a memo keyed by anything less
+    // than the exact string would answer one of them with another's tree)
+    let fixed_h: Vec<Vec<String>> = vec![
+        vec!["\"a b\"".into(), "\"a  b\"".into(), "\"a b\"".into()],
+        vec!["len(\" a\")".into(), "len(\"   a\")".into()],
+        vec!["a + B".into(), "A + b".into(), "a+B".into()],
+        vec!["1 /* x */ + 2".into(), "1 /* y */ + 2".into(), "1 /* x */ - 2".into()],
+    ];
+    common::enumerate(rep, "fixed-histories", fixed_h.len() as u64, 1, &|i, l| check_history(&fixed_h[i as usize], l));
+    let nh = rep.tier.pick(60_000u64, 2_000_000);
+    common::random_search(rep, "histories", 162, nh, &arb_history, &|h: &Vec<String>, l| {
+        l.sample(2, || json!(h.iter().map(|s| vcore::clip(s, 60)).collect::<Vec<_>>()));
+        check_history(h, l)
     });
     // scale: expressions and contexts whose size crosses typical capacities (wide tuples, long
     // chains, deep nesting, long identifiers and strings; contexts with 1..400 variables of all types)
@@ -372,6 +465,15 @@ fn replay(case: &J, rep: &Report) {
     l.evaluations = 1;
     let r = match case["kind"].as_str() {
         Some("node") => check_node(case["src"].as_str().unwrap_or_else(|| common::bad_case("src")), &mut l),
+        Some("history") => {
+            let srcs: Vec<String> = case["srcs"]
+                .as_array()
+                .unwrap_or_else(|| common::bad_case("srcs"))
+                .iter()
+                .map(|s| s.as_str().unwrap_or_else(|| common::bad_case("srcs")).to_string())
+                .collect();
+            check_history(&srcs, &mut l)
+        },
         Some("context") => {
             let c = common::ctx_from_json(&case["ctx"]).unwrap_or_else(|| common::bad_case("ctx"));
             check_context(&c, &mut l)
